@@ -167,6 +167,34 @@ P = {
         "parameter `interp`; VbaProject::from_cfb, zip and quick-xml are outside the model.",
    technique="Coq proof (induction over record lists / event lists / directory entries) + extracted-model correspondence on generated containers",
    design_ref="5/C20"),
+ "C03": dict(claimed=True,
+   text="Coq theorems over XlsbRec.v (on RK, Utf16, Range): C03_varint_roundtrip (every record id in its 1- or 2-byte form and every "
+        "length in its minimal and padded 1-4-byte forms decode to themselves and consume exactly their bytes; arithmetic, no sweep) "
+        "and C03_record_frame; C03_ignorable_transparent (inserting any well-framed record the cell reader does not interpret, "
+        "anywhere, leaves its outcome unchanged; induction over the record list + fuel irrelevance); C03_cell_table(_values) for "
+        "every interpreted record kind incl. the four BrtFmla kinds and BrtRowHdr; RK theorems incl. the xlsb/xls difference; "
+        "C03_sst_roundtrip; C03_xlsb_sheet_main / _workbook_main: for every logical sheet and every legal encoding (record kind per "
+        "value, RK forms vs BrtCellReal, framing forms, ignorable records anywhere, BrtWsDim exact or wrong, empty rows, any trailer) "
+        "the model of worksheet_range_ref + from_sparse returns range_of sheet, via from_sparse_spec, unbounded. One known class "
+        "(wsdim_absent) with refutation lemma. Tie: hook on the record framing, generated .xlsb packages (tools/xlsbgen.py) through "
+        "Xlsb::new + worksheet_range(_ref), malformed parts with panic prediction.",
+   note=TB + " zip/XML parts of the package, styles.bin parsing beyond the format table, next_formula/parse_formula (C14) are outside this model; "
+        "ranges above ~300k cells are skipped on the model side (counted).",
+   technique="Coq proof (varint arithmetic, induction over record lists with fuel, reduction to from_sparse_spec) + extracted-model correspondence",
+   design_ref="5/C03"),
+ "C04": dict(claimed=True,
+   text="Coq theorems over OdsGrid.v: C04_ods_grid_main — for every list of row elements (number-rows-repeated x cells with "
+        "number-columns-repeated, values, formulas, covered cells) with positive counts and inside the stated extent guard (which "
+        "contains a 1048576 x 16384 sheet: C04_sheet_limits_inside_guard), the model of read_row + read_table + get_range returns "
+        "range_of (expand rows) for values and for formulas: tight bounding rectangle, every value at its absolute position; unbounded "
+        "induction over rows and cells (pass-1 summary invariant, pass-2 pending-empties invariant). C04_rle_independent (two encodings "
+        "with the same cell function read the same), C04_empties_inert / _shift_rows, C04_range_of_sound / _nothing, "
+        "C04_typing_canonical, C04_xtable_main (with attribute parsing and typing). No known class (F7 fixed). Tie: generated .ods "
+        "files (same grid under several run-length groupings, first used column != A, blank rows, covered cells, formula-only cells "
+        "without cached value, huge repeats) through Ods::new + worksheet_range + worksheet_formula, and the get_range hook.",
+   note=TB + " attribute-order irrelevance of get_datatype is sampled, not proved; text content of cells is C19's model; zip and quick-xml are outside.",
+   technique="Coq proof (two-pass invariant induction over rows/cells; reduction to a bounding-box spec) + extracted-model correspondence on real .ods files",
+   design_ref="5/C04"),
 }
 REASON_TODO = "not claimed yet: model and theorems for this property are still being built (see DESIGN.md section 9)"
 
